@@ -149,6 +149,16 @@ fn mode_validate(c: &Case, out: &mut String) {
     let h = std::thread::spawn(move || build(&files).validate());
     det &= res_eq(&v1, &h.join().unwrap());
     writeln!(out, "X {} determinism {}", c.name, if det { "ok" } else { "FAIL" }).unwrap();
+    // a digest of every file's result (tree + diagnostics incl. messages), for before/after comparisons (C13)
+    for fr in sorted(&v1) {
+        use std::hash::{Hash, Hasher};
+        let mut h = std::collections::hash_map::DefaultHasher::new();
+        // canonical form (annotation parameters sorted), not Debug: HashMap's Debug order varies per instance
+        let mut canon = String::new();
+        sx::file_result(&mut canon, &fr.id, &fr.ast, &fr.diagnostics);
+        canon.hash(&mut h);
+        writeln!(out, "X {} hash:{} ok {:016x}", c.name, fr.id, h.finish()).unwrap();
+    }
 }
 
 // ---------------------------------------------------------------- serde
@@ -425,8 +435,56 @@ fn mode_history(c: &Case, out: &mut String, tmp: &std::path::Path) {
             ok = false;
             write!(detail, " step{}:differs-from-fresh", i).unwrap();
         }
-        write!(steps, "{}", abs.len()).unwrap();
+        {
+            let r = p.validate();
+            let mut keys: Vec<String> = r
+                .keys()
+                .map(|k| k.file_name().unwrap().to_string_lossy().to_string())
+                .collect();
+            keys.sort();
+            steps.push('(');
+            for k in &keys {
+                sx::s(&mut steps, k);
+            }
+            steps.push(')');
+        }
     }
+    write!(out, "H {} ((", c.name).unwrap();
+    for op in &c.ops {
+        match op {
+            Op::Add(id, t) => {
+                out.push_str("(0 ");
+                sx::s(out, id);
+                sx::s(out, t);
+                out.push(')');
+            }
+            Op::Remove(id) => {
+                out.push_str("(1 ");
+                sx::s(out, id);
+                out.push(')');
+            }
+            Op::Validate => out.push_str("(2)"),
+            Op::AddFileOk(id, bytes) => {
+                out.push_str("(3 ");
+                sx::s(out, id);
+                match std::str::from_utf8(bytes) {
+                    Ok(t) => {
+                        out.push('(');
+                        sx::s(out, t);
+                        out.push(')');
+                    }
+                    Err(_) => out.push_str("()"),
+                }
+                out.push(')');
+            }
+            Op::AddFileMissing(id) => {
+                out.push_str("(3 ");
+                sx::s(out, id);
+                out.push_str("())");
+            }
+        }
+    }
+    writeln!(out, ")({}))", steps).unwrap();
     writeln!(out, "X {} history {}{}", c.name, if ok { "ok" } else { "FAIL" }, detail).unwrap();
 }
 
